@@ -174,12 +174,14 @@ func evalSeq(q sequence, o *seqOutput) evalResult {
 			p, via := c.member(int(s.Member))
 			own := t.args[p]
 			exp := accepts(own, s.Val)
-			b := bind(t.class, p, own)
-			pred := accepts(b, s.Val)
-			obs := mk.status == "accepted"
 			if mk.status != "accepted" && mk.status != "rejected" {
 				continue
 			}
+			// the marker of every write reads the property back through the same instance, so the
+			// step is a lookup by this instance even when the call never reached a store
+			b := bind(t.class, p, own)
+			pred := accepts(b, s.Val)
+			obs := mk.status == "accepted"
 			res.writes++
 			for k, other := range insts {
 				if k != int(s.Inst) && other.created && other.class == t.class && other.args != t.args {
@@ -189,7 +191,7 @@ func evalSeq(q sequence, o *seqOutput) evalResult {
 			if obs != exp {
 				res.dis = append(res.dis, mismatch(q, j, c, p, via, own, b, s.Val, exp, obs, pred, mk))
 			}
-			if d := valueDesc(int(s.Val), tok); d != "" {
+			if d := valueDesc(int(s.Val), tok); d != "" && via != "param" {
 				cell := "class=" + c.name + "/prop=" + c.props[p] + "/own=" + typeNames[own] + "/value=" + valNames[s.Val] + "/via=" + via
 				if obs && mk.cur != d {
 					res.dis = append(res.dis, disagreement{
@@ -224,19 +226,37 @@ func word(accepted bool) string {
 func mismatch(q sequence, j int, c classSpec, p int, via string, own, b, val int8, exp, obs, pred bool, mk marker) disagreement {
 	base := func() string {
 		inst := fmt.Sprintf("%s (parameter %s = %s)", c.name, c.params[p], typeNames[own])
-		t := fmt.Sprintf("step %d of [%s]: a %s value written to property %s of an instance of %s through %s was %s, expected %s",
-			j, q, valNames[val], c.props[p], inst, via, word(obs), word(exp))
+		target := "written to property " + c.props[p] + " of"
+		if via == "param" {
+			target = "passed to a method parameter declared " + c.params[p] + " of"
+		}
+		t := fmt.Sprintf("step %d of [%s]: a %s value %s an instance of %s through %s was %s, expected %s",
+			j, q, valNames[val], target, inst, via, word(obs), word(exp))
 		if mk.msg != "" {
 			t += " (message: " + mk.msg + ")"
 		}
 		return t
 	}
-	if b != own && obs == pred {
+	// a rejection worded like the interpreter's parameter-type rejections (calibrated prefix)
+	// comes from the parameter declaration, not from the property store
+	paramMsg := paramRejectPrefix != "" && strings.HasPrefix(mk.msg, paramRejectPrefix)
+	unboundParam := via != "prop" && exp && !obs && (paramMsg || via == "param")
+	if b != own && obs == pred && via != "param" && !unboundParam {
 		return disagreement{
 			key: "shared-decl/first-lookup-wins/class=" + c.name + "/prop=" + c.props[p] + "/own=" + typeNames[own] + "/bound=" + typeNames[b] + "/value=" + valNames[val] + "/via=" + via,
 			what: func() string {
 				return base() + fmt.Sprintf("; the declaration of $%s was first looked up through an instance with %s = %s and behaves as %s for every instance",
 					c.props[p], c.params[p], typeNames[b], typeNames[b])
+			},
+			step: j}
+	}
+	if unboundParam {
+		// what an unsubstituted parameter declaration predicts: `T $x` is checked against a
+		// class literally named T, so every non-null argument is rejected at the call
+		return disagreement{
+			key: "unbound-param/class=" + c.name + "/param=" + c.params[p] + "/own=" + typeNames[own] + "/value=" + valNames[val] + "/via=" + via,
+			what: func() string {
+				return base() + "; a value of the instance's own argument type is rejected by a member whose parameter is declared with the type parameter"
 			},
 			step: j}
 	}
